@@ -1,5 +1,127 @@
 import PsiModel.EpochsExt
-/-! EXT18 — theorems about the helpers of util.py that property C18 does not name (not part of `./check C18`). -/
+import PsiProofs.C18
+import PsiProofs.Helper.C18Ext_Search
+/-!
+EXT18 — theorems about helpers of util.py that property C18 does not name (NOT part of `./check C18`;
+registry `lean/registry/EXT18.txt`).
+-/
 namespace Psi.EpochsExt
+open Psi.Epochs
+
+/-! ### `epochs_contain` -/
+
+/-- `util.epochs_contain(e, t)` on a table with `start ≤ end` in every row:
+True iff some epoch has `start < t ≤ end` — the LEFT bound is excluded and the RIGHT bound included
+(not the `[start, end)` convention of the tables `util.epochs` returns; see the examples below). -/
+theorem epochs_contain_iff (e : List (Int × Int)) (t : Int) (h : ∀ p ∈ e, p.1 ≤ p.2) :
+    contain1 e t = true ↔ ∃ p ∈ e, p.1 < t ∧ t ≤ p.2 := by
+  have hid := count_identity e t t
+  have hz : e.countP (fun p => decide (t ≤ p.1) && decide (p.2 < t)) = 0 := by
+    apply countP_zero_of_forall
+    intro p hp
+    have := h p hp
+    by_cases h1 : t ≤ p.1 <;> simp [h1]
+    omega
+  have hpos := @List.countP_pos_iff _ e (fun p => decide (p.1 < t) && decide (t ≤ p.2))
+  simp only [Bool.and_eq_true, decide_eq_true_eq] at hpos
+  rw [← hpos]
+  simp only [contain1, bne_iff_ne, ne_eq]
+  omega
+
+/-- the array form: one answer per time, each by the law above. -/
+theorem epochs_contain_array (e : List (Int × Int)) (ts : List Int) (h : ∀ p ∈ e, p.1 ≤ p.2) :
+    (epochsContain e ts).length = ts.length ∧
+    ∀ (k : Nat) (hk : k < ts.length) (hk' : k < (epochsContain e ts).length),
+      ((epochsContain e ts)[k] = true ↔ ∃ p ∈ e, p.1 < ts[k] ∧ ts[k] ≤ p.2) := by
+  refine ⟨by simp [epochsContain], ?_⟩
+  intro k hk hk'
+  simp only [epochsContain, List.getElem_map]
+  exact epochs_contain_iff e ts[k] h
+
+example : epochsContain [(1, 3), (5, 8)] [0, 1, 2, 3, 4, 5, 6, 7, 8, 9]
+    = [false, false, true, true, false, false, true, true, true, false] := by decide
+/-- boundary counterexamples to the half-open reading "start ≤ t < end": the first sample of an epoch is
+reported outside, the first sample after it inside. -/
+example : contain1 [(1, 3)] 1 = false ∧ contain1 [(1, 3)] 3 = true := by decide
+/-- the hypothesis `start ≤ end` is needed: a reversed row makes a time "contained" that no row contains. -/
+example : contain1 [(5, 1)] 3 = true ∧ ¬ ∃ p ∈ [((5 : Int), (1 : Int))], p.1 < 3 ∧ 3 ≤ p.2 := by
+  refine ⟨by decide, ?_⟩
+  rintro ⟨p, hp, h1, h2⟩
+  simp at hp
+  subst hp
+  omega
+
+/-- On the table `util.epochs(x)` returns, `epochs_contain(·, t)` answers for sample `t - 1`, not `t`:
+it is True iff `t ≥ 1` and sample `t - 1` is high. -/
+theorem epochs_contain_runs_shifted (x : List Bool) (t : Nat) :
+    contain1 ((maximalRuns x).map (fun p => ((p.1 : Int), (p.2 : Int)))) (t : Int) = true
+      ↔ 1 ≤ t ∧ x[t - 1]? = some true := by
+  rw [epochs_contain_iff]
+  · constructor
+    · rintro ⟨p, hp, h1, h2⟩
+      obtain ⟨q, hq, rfl⟩ := List.mem_map.mp hp
+      have hs := maximalRuns_sound x q hq
+      simp only at h1 h2
+      refine ⟨by omega, hs.2.2.1 (t - 1) (by omega) (by omega)⟩
+    · rintro ⟨h1, hx⟩
+      obtain ⟨q, hq, h3, h4⟩ := maximalRuns_complete x (t - 1) hx
+      exact ⟨((q.1 : Int), (q.2 : Int)), List.mem_map.mpr ⟨q, hq, rfl⟩, by simp only; omega, by simp only; omega⟩
+  · intro p hp
+    obtain ⟨q, hq, rfl⟩ := List.mem_map.mp hp
+    have hs := maximalRuns_sound x q hq
+    have := hs.1
+    simp only
+    omega
+
+example : maximalRuns [false, true, true, false] = [(1, 3)] ∧
+    contain1 [(1, 3)] 1 = false ∧ [false, true, true, false][1]? = some true := by decide
+
+/-! ### `epochs_overlap` -/
+
+/-- `util.epochs_overlap(a, b)` for one row `q` of `b`, `a` with both columns non-decreasing:
+True iff `q` lies inside an epoch of `a` that starts STRICTLY earlier (`start < q.start`, `q.end ≤ end`), or an epoch
+of `a` lies inside `q` and ends STRICTLY earlier (`q.start ≤ start`, `end < q.end`).  Partial overlaps, and a `q` that
+starts exactly where the epoch containing it starts, give False (examples below). -/
+theorem epochs_overlap_iff (a : List (Int × Int)) (q : Int × Int)
+    (hs : a.Pairwise (fun p r => p.1 ≤ r.1 ∧ p.2 ≤ r.2)) :
+    overlap1 a q = true ↔
+      (∃ p ∈ a, p.1 < q.1 ∧ q.2 ≤ p.2) ∨ (∃ p ∈ a, q.1 ≤ p.1 ∧ p.2 < q.2) := by
+  have hid := count_identity a q.1 q.2
+  have hA := @List.countP_pos_iff _ a (fun p => decide (p.1 < q.1) && decide (q.2 ≤ p.2))
+  have hB := @List.countP_pos_iff _ a (fun p => decide (q.1 ≤ p.1) && decide (p.2 < q.2))
+  simp only [Bool.and_eq_true, decide_eq_true_eq] at hA hB
+  rw [← hA, ← hB]
+  simp only [overlap1, bne_iff_ne, ne_eq]
+  -- both differences cannot be positive at once on sorted columns
+  have hex : ¬ (0 < a.countP (fun p => decide (p.1 < q.1) && decide (q.2 ≤ p.2)) ∧
+                0 < a.countP (fun p => decide (q.1 ≤ p.1) && decide (p.2 < q.2))) := by
+    rw [hA, hB]
+    rintro ⟨⟨p, hp, h1, h2⟩, ⟨r, hr, h3, h4⟩⟩
+    rcases pairwise_mem_cases hs hp hr with rfl | h | h <;> omega
+  omega
+
+theorem epochs_overlap_array (a b : List (Int × Int))
+    (hs : a.Pairwise (fun p r => p.1 ≤ r.1 ∧ p.2 ≤ r.2)) :
+    (epochsOverlap a b).length = b.length ∧
+    ∀ (k : Nat) (hk : k < b.length) (hk' : k < (epochsOverlap a b).length),
+      ((epochsOverlap a b)[k] = true ↔
+        (∃ p ∈ a, p.1 < b[k].1 ∧ b[k].2 ≤ p.2) ∨ (∃ p ∈ a, b[k].1 ≤ p.1 ∧ p.2 < b[k].2)) := by
+  refine ⟨by simp [epochsOverlap], ?_⟩
+  intro k hk hk'
+  simp only [epochsOverlap, List.getElem_map]
+  exact epochs_overlap_iff a b[k] hs
+
+example : [((1 : Int), (3 : Int)), (5, 8)].Pairwise (fun p r => p.1 ≤ r.1 ∧ p.2 ≤ r.2) := by decide
+example : epochsOverlap [(1, 3), (5, 8)] [(0, 1), (1, 2), (2, 4), (3, 5), (4, 9), (0, 9), (2, 3), (1, 3)]
+    = [false, false, false, false, true, true, true, false] := by decide
+/-- counterexamples to the docstring ("True where `b` falls within boundaries of epoch in `a`"):
+an epoch is not reported inside itself, nor a prefix of it; a partial overlap is not reported;
+an interval that merely CONTAINS an epoch is. -/
+example : overlap1 [(1, 3)] (1, 3) = false ∧ overlap1 [(1, 3)] (1, 2) = false ∧
+    overlap1 [(1, 3)] (2, 4) = false ∧ overlap1 [(1, 3)] (0, 9) = true := by decide
+/-- the sortedness hypothesis is needed: with a nested row the two differences cancel. -/
+example : overlap1 [(0, 9), (2, 3)] (1, 5) = false ∧
+    (∃ p ∈ [((0 : Int), (9 : Int)), (2, 3)], p.1 < (1 : Int) ∧ (5 : Int) ≤ p.2) := by
+  refine ⟨by decide, (0, 9), by simp, by decide, by decide⟩
 
 end Psi.EpochsExt
